@@ -8,8 +8,10 @@ from scipy import stats
 
 import core
 import oracle
+import srctie_pop
 
-REQUIRED_THEOREMS = [
+REQUIRED_THEOREMS = sorted(set(srctie_pop.theorem_of(k) for k in srctie_pop.all_kernels())) + [
+    'Tie_pop_%s_%s' % (k, w) for k in ('gauss', 'gaussNC', 'logn', 'lognNC', 'trunc') for w in ('popLL', 'popSens')] + [
     'C05_gauss_is_logpdf', 'C05_logn_is_logpdf', 'C05_trunc_is_logpdf', 'C05_trunc_normalised',
     'C05_noncentred_is_logpdf',
     'C05_pooled_is_pointmass', 'C05_hetero_is_pointmass', 'C05_guard',
@@ -40,6 +42,11 @@ RULE = ('every elementary class (Gaussian / log-normal centred and non-centred, 
         'floats / list of Python ints; non-trivial = n_dim >= 2 and n_ids >= 2; distinct = distinct '
         '(class, n_dim, n_ids, guard class, upstream supplied)')
 ASSUMPTIONS = [
+    'the closed-form kernels of GaussianModel / LogNormalModel (centred, non-centred) / TruncatedGaussianModel are '
+    'additionally tied to the source by harness/srctie_pop.py: compute_log_likelihood and compute_sensitivities are '
+    'traced from the public methods (flat parameter vector) on every run and proved equal to the Lean model (Tie_pop_* '
+    'in ChiProofs/Tie/C05.lean); evidence key source_tie; a tie that is not established is not a verdict, it steers '
+    'the search',
     'covariate-wrapped sub-models use the linear covariate transform of C07 (Covariate.lean: covTh, covSens); '
     'ReducedPopulationModel inside compositions is C08',
     'finite differences of chi\'s own value and scipy.stats densities are used only to exhibit a failing '
@@ -393,6 +400,8 @@ def run_elementary(ctx, chi, c):
     cls = CLASSNAME[code]
     inp = {'kind': code, 'n_dim': n_dim, 'n_ids': n_ids, 'theta': TH, 'obs': obs, 'up': up,
            'guard': guard}
+    if c.get('label'):
+        inp['label'] = c['label']       # a case derived from a guard the source tie met (srctie_pop.hint_cases)
     m = make_model(chi, code, n_dim, n_ids)
     L = layouts(TH, n_ids)
     ctx.case('%s/%s' % (code, guard),
@@ -1099,6 +1108,11 @@ def run(ctx):
     for c in corpus():
         ctx.guard(run_elementary, ctx, chi, c)
     ctx.guard(odd_shapes, ctx, chi)
+    # the source-derived tie: formulas traced from the current source vs the generated Lean definitions; guards
+    # outside the support guards come back as concrete cases on both sides of each of them
+    tie = srctie_pop.check(ctx, chi)
+    for c in tie['hints']:
+        ctx.guard(run_elementary, ctx, chi, c)
     n_el, n_te, n_co = (560, 140, 230) if quick else (24000, 6000, 10000)
     for i in range(n_el):
         rng = ctx.sub_rng(i)
